@@ -17,6 +17,7 @@ first three, `c07_period_counterexample` / `c07_scheme_counterexample` are accep
 two (replayed on the real `Process.Packet` by the `dkgrun` engine), `c07_tampered_period_pipeline` says what the rest
 of the pipeline does with the resulting group.
 -/
+import DrandProofs.C07Net
 import Drand.Beacon.Transition
 import DrandProofs.C17
 import DrandProofs.Lemmas.Pedersen
@@ -342,6 +343,21 @@ theorem c07_refused_transition_keeps_old (bp : BP) (old : Option G) (new : G) (s
       unfold BP.onDKGCompleted
       simp only [hwas, his, if_true, hv]
   exact ⟨h1, by simp [BP.onOutcome, h1]⟩
+
+/-! ### a node that leaves -/
+
+/-- **The leaver's stop time, code as it is.** `leaveNetwork` computes the time at which the leaving node's handler is
+to stop from `bp.group` — the group it is LEAVING — not from the new group: whenever that group's own transition time is
+not in the future (always, outside back-to-back resharings: it is the genesis time for the first group, the previous
+transition otherwise) the stop time lies in the past, `Handler.StopAt` refuses it ("can't stop in the past or present")
+and the handler keeps running. Replayed on the real `onDKGCompleted` by engine `net` (script leaver-core). -/
+theorem c07_leaver_stop_time_counterexample (bp : BP) (old new : G) (s i : Nat) (now : Int)
+    (hwas : inGroup old bp.addr = true) (hnot : inGroup new bp.addr = false) (cur : G) (hcur : bp.group = some cur)
+    (hpast : cur.transitionTime ≤ now) :
+    ∃ t, (bp.onDKGCompleted (some old) new s i now).1.stopAt = some t ∧ t < now ∧ t = cur.transitionTime - 1 := by
+  refine ⟨cur.transitionTime - 1, ?_, by omega, rfl⟩
+  unfold BP.onDKGCompleted
+  simp [hwas, hnot, hcur]
 
 /-! ### which terms a member pins -/
 
